@@ -98,8 +98,13 @@ RtFail == FileRec("rtfail", "x\n{{ 1 / 0 }}", "")
 OutsideFiles == {[path |-> "t/cut.txt", src |-> "a\n@if(true)\nnever closed", kind |-> ""], [path |-> "t/illegal.txt", src |-> "a\n\n{{ 1 ~ 2 }}", kind |-> ""],
                  [path |-> "t/undef.txt", src |-> "{{ zz }}", kind |-> ""]}
 BaseCase == {[files |-> SetToSeq({FileRec(m, Cat(GoodFiles[m]), "") : m \in DOMAIN GoodFiles} \cup {OddFile, BomFile, RtFail, FileRec("aaa", "first:@component(\"~card\", {n: 2})", ""),
-                                 FileRec("layouts/plainlay", "a layout that reserves nothing", ""), FileRec("usesplain", "@use(\"~plainlay\")ignored", "")} \cup OutsideFiles), cfg |-> [dir |-> "t", ext |-> ".tw"],
-              load |-> [ok |-> TRUE, names |-> SetToSeq(GoodNames \cup {"odd", "bom", "rtfail", "aaa", "layouts/plainlay", "usesplain"})],
+                                 FileRec("layouts/plainlay", "a layout that reserves nothing", ""), FileRec("usesplain", "@use(\"~plainlay\")ignored", ""),
+                                 \* layouts whose reserves all stand inside blocks: files that declare reserves are layouts wherever the reserve stands
+                                 FileRec("layouts/inif", "@if(true)<x>@reserve(\"content\")</x>@end", ""), FileRec("layouts/ineach", "@each(q in [1, 2])[@reserve(\"content\")]@end", ""),
+                                 FileRec("layouts/inelse", "@if(false)no@else@for(i = 0; i < 1; i++)<e>@reserve(\"content\")</e>@end@end", ""),
+                                 FileRec("viaif", "@use(\"~inif\")@insert(\"content\", \"C\")", ""), FileRec("viaeach", "@use(\"~ineach\")@insert(\"content\")c@end", ""),
+                                 FileRec("viaelse", "@use(\"~inelse\")@insert(\"content\", 7)", "")} \cup OutsideFiles), cfg |-> [dir |-> "t", ext |-> ".tw"],
+              load |-> [ok |-> TRUE, names |-> SetToSeq(GoodNames \cup {"odd", "bom", "rtfail", "aaa", "layouts/plainlay", "usesplain", "viaif", "viaeach", "viaelse"})],
               ops |-> HomeOp([kind |-> "out", out |-> GoodOut]) \o
                       <<[op |-> "EvalFile", name |-> "odd", data |-> <<>>, expect |-> [kind |-> "any"]],
                         [op |-> "EvalFile", name |-> "bom", data |-> <<>>, expect |-> [kind |-> "any"]],
@@ -113,6 +118,12 @@ BaseCase == {[files |-> SetToSeq({FileRec(m, Cat(GoodFiles[m]), "") : m \in DOMA
                         [op |-> "EvalFile", name |-> "/t/illegal.txt", data |-> <<>>, expect |-> [kind |-> "any"]],
                         [op |-> "EvalFile", name |-> "/t/undef.txt", data |-> <<>>, expect |-> [kind |-> "any"]]>> \o
                       <<[op |-> "String", name |-> "layouts/main", data |-> <<>>, expect |-> [kind |-> "err", why |-> "layouts are not renderable"]],
+                        [op |-> "String", name |-> "layouts/inif", data |-> <<>>, expect |-> [kind |-> "err", why |-> "layouts are not renderable"]],
+                        [op |-> "String", name |-> "layouts/ineach", data |-> <<>>, expect |-> [kind |-> "err", why |-> "layouts are not renderable"]],
+                        [op |-> "String", name |-> "layouts/inelse", data |-> <<>>, expect |-> [kind |-> "err", why |-> "layouts are not renderable"]],
+                        [op |-> "String", name |-> "viaif", data |-> <<>>, expect |-> [kind |-> "out", out |-> "<x>C</x>"]],
+                        [op |-> "String", name |-> "viaeach", data |-> <<>>, expect |-> [kind |-> "out", out |-> "[c][c]"]],
+                        [op |-> "String", name |-> "viaelse", data |-> <<>>, expect |-> [kind |-> "out", out |-> "<e>7</e>"]],
                         [op |-> "String", name |-> "about", data |-> <<>>, expect |-> [kind |-> "out", out |-> "plain 312"]],
                         [op |-> "EvalFile", name |-> "about", data |-> <<>>, expect |-> [kind |-> "any"]],
                         [op |-> "EvalFile", name |-> "components/card", data |-> <<[k |-> "n", v |-> [t |-> "int", b |-> "z", o |-> 1]]>>, expect |-> [kind |-> "any"]],
